@@ -168,8 +168,10 @@ def run_streams(desc, res):
             res.hit("streams_checked")
             # --- QueryDeviceTypes
             kind, exp = classify_dt_stream(stream)
-            out, value, ncmd = feed(QueryDeviceTypes(address.GearShort(3)), stream)
-            wit = {"sequence": "QueryDeviceTypes", "stream": [str(s) for s in stream], "outcome": out,
+            # whoever is asked - one unit, a group, everybody - the answers are judged the same way
+            dest = (address.GearShort(3), 3, address.GearGroup(2), address.GearBroadcast(), address.GearShort(63))[(res.evaluations + n) % 5]
+            out, value, ncmd = feed(QueryDeviceTypes(dest), stream)
+            wit = {"sequence": "QueryDeviceTypes", "destination": str(dest), "stream": [str(s) for s in stream], "outcome": out,
                    "value": repr(value), "commands": ncmd, "class": kind, "why": repr(exp)}
             if out == "unbounded":
                 res.violation("C08/QueryDeviceTypes/does-not-stop", f"still asking after {BOUND} commands on stream {stream} (last answer repeating)", wit)
@@ -226,6 +228,9 @@ def run_dtlists(desc, seed, res):
         if r.random() < 0.5:
             base[0] = 0
         lists.append(sorted(set(base)))
+    # 'many' has no upper limit short of the 254 type numbers there are
+    for n in (9, 15, 16, 17, 31, 32, 33, 64, 100, 253, 254):
+        lists.append(sorted(r.sample(range(254), n)))
     for i, dts in enumerate(lists):
         res.evaluations += 1
         res.distinct += 1
@@ -359,7 +364,9 @@ def run_setgroups(desc, seed, res):
         wit = {"current": sorted(curset), "requested": sorted(reqset), "destination": kind,
                "dest_group": getattr(dest, "group", None)}
         try:
-            bus.run_sequence(SetGroups(dest, set(reqset)) if idx % 3 else SetGroups(groups=set(reqset), addr=dest))
+            # "a set of integers": a set, a frozenset, the keys of a dict - whatever supports the set operations
+            shaped = (set(reqset), frozenset(reqset), {g_: None for g_ in reqset}.keys(), set(reqset))[idx % 4]
+            bus.run_sequence(SetGroups(dest, shaped) if idx % 3 else SetGroups(groups=shaped, addr=dest))
         except Exception as e:
             res.violation(f"C08/SetGroups/raised/{type(e).__name__}", f"{type(e).__name__}: {e}", {**wit, "tb": short_tb(e)})
             continue
